@@ -27,6 +27,8 @@ CONSTANTS Mods,          \* module names
           Variants,      \* e.g. 1..3
           BodyOf,        \* [Variants -> class]: variants in one class differ in layout only (same emitted text, other file hash)
           MaxOps,
+          AstHash,       \* TRUE = the tree cache is keyed by the content hash of the source too (repaired), FALSE = by modification time only (pinned commit)
+          MaxT,          \* 0: every edit advances the modification time; k > 0: an edit sets any time in 1..k other than the current one
           MaxTorn,       \* max number of cache files damaged by an interrupted write
           TransitiveKey, \* FALSE = as coded
           DeepHeader,    \* FALSE = as coded
@@ -67,7 +69,10 @@ Hdr(m) == IF DeepHeader THEN [d \in Closure(m) |-> src[d]] ELSE [d \in {m} |-> s
 (*   reads/writes: did the process touch the cache directory                *)
 (*   err  : "" | "fail"                                                     *)
 
-PInit == [db |-> <<>>, a |-> ast, s |-> sym, p |-> parser, reads |-> FALSE, writes |-> FALSE, err |-> ""]
+\*   parsed: the source variant whose tree this process works with, per parsed module
+PInit == [db |-> <<>>, a |-> ast, s |-> sym, p |-> parser, reads |-> FALSE, writes |-> FALSE, err |-> "", parsed |-> <<>>]
+
+Merge(f, g) == [x \in DOMAIN f \cup DOMAIN g |-> IF x \in DOMAIN f THEN f[x] ELSE g[x]]
 
 \* SyntaxParserOfLark.__load_parser (once per process, on first parse)
 LoadParser(ps, enabled) ==
@@ -78,13 +83,15 @@ LoadParser(ps, enabled) ==
 
 \* SyntaxParserOfLark.__load_entry: hit <=> a file for (m, mtime) exists; a miss evicts the module's other
 \* files - the glob `<module>-*.json` also matches the module's symbol file - and writes a new one
+\* (keyed by content the stored tree is used only when it was built from the present content)
+AstHit(ps, m) == ps.a[m] # None /\ ps.a[m].mt = mtime[m] /\ (AstHash => ps.a[m].v = src[m])
 LoadAst(ps, m, enabled) ==
-  IF ps.err # "" \/ ~enabled THEN ps
-  ELSE IF ps.a[m] # None /\ ps.a[m].mt = mtime[m]
-       THEN IF ps.a[m].torn THEN [ps EXCEPT !.err = "fail", !.reads = TRUE] ELSE [ps EXCEPT !.reads = TRUE]
-       ELSE [ps EXCEPT !.a[m] = [mt |-> mtime[m], v |-> src[m], torn |-> FALSE], !.s[m] = None, !.writes = TRUE]
+  IF ps.err # "" THEN ps
+  ELSE IF ~enabled THEN [ps EXCEPT !.parsed = Merge((m :> src[m]), @)]
+  ELSE IF AstHit(ps, m)
+       THEN IF ps.a[m].torn THEN [ps EXCEPT !.err = "fail", !.reads = TRUE] ELSE [ps EXCEPT !.reads = TRUE, !.parsed = Merge((m :> ps.a[m].v), @)]
+       ELSE [ps EXCEPT !.a[m] = [mt |-> mtime[m], v |-> src[m], torn |-> FALSE], !.s[m] = None, !.writes = TRUE, !.parsed = Merge((m :> src[m]), @)]
 
-Merge(f, g) == [x \in DOMAIN f \cup DOMAIN g |-> IF x \in DOMAIN f THEN f[x] ELSE g[x]]
 RECURSIVE MergeAll(_, _)
 MergeAll(db, ds) == IF ds = <<>> THEN <<>> ELSE Merge(db[Head(ds)], MergeAll(db, Tail(ds)))
 
@@ -94,7 +101,7 @@ Preprocess(ps, m, enabled) ==
   ELSE IF enabled /\ ps.s[m] # None /\ ps.s[m].key = SymKey(m)
        THEN IF ps.s[m].torn THEN [ps EXCEPT !.err = "fail", !.reads = TRUE]
             ELSE [ps EXCEPT !.db = Merge((m :> ps.s[m].built), @), !.reads = TRUE]
-       ELSE LET built == Merge((m :> BodyOf[src[m]]), MergeAll(ps.db, Imports[m]))
+       ELSE LET built == Merge((m :> BodyOf[ps.parsed[m]]), MergeAll(ps.db, Imports[m]))
                 ps1 == [ps EXCEPT !.db = Merge((m :> built), @)]
             IN IF (enabled \/ ~StoreGated) /\ (ps.s[m] = None \/ ps.s[m].key # SymKey(m))
                THEN [ps1 EXCEPT !.s[m] = [key |-> SymKey(m), built |-> built, torn |-> FALSE], !.writes = TRUE]
@@ -127,11 +134,12 @@ Init == /\ src = [m \in Mods |-> 1]
         /\ ntorn = 0
         /\ op = [name |-> "init"]
 
-Edit(m, v) ==
+Edit(m, v, t) ==
   /\ v # src[m]
+  /\ IF MaxT = 0 THEN t = mtime[m] + 1 ELSE t \in 1..MaxT /\ t # mtime[m]
   /\ src' = [src EXCEPT ![m] = v]
-  /\ mtime' = [mtime EXCEPT ![m] = @ + 1]
-  /\ op' = [name |-> "edit", m |-> m, v |-> v]
+  /\ mtime' = [mtime EXCEPT ![m] = t]
+  /\ op' = [name |-> "edit", m |-> m, v |-> v, t |-> t]
   /\ UNCHANGED <<ast, sym, parser, out, ntorn>>
 
 Run(enabled, force) ==
@@ -172,7 +180,7 @@ DeleteOutput(m) ==
 
 AnyMod == CHOOSE m \in Mods : TRUE
 Next ==
-  \/ \E m \in Mods, v \in Variants : Edit(m, v)
+  \/ \E m \in Mods, v \in Variants, t \in 1..(IF MaxT = 0 THEN MaxOps + 1 ELSE MaxT) : Edit(m, v, t)
   \/ \E enabled \in (IF WithCache THEN BOOLEAN ELSE {FALSE}), force \in BOOLEAN : Run(enabled, force)
      \* the runner configuration (C06) isolates the header mechanism: caching is switched off there
   \/ ClearCache
@@ -198,7 +206,7 @@ TornNeverWrong == [][op'.name = "run" /\ ntorn > 0 /\ op'.res = "ok" => \A m \in
 
 \* the cache is coherent: every intact file that a run would accept holds what a cold run would compute
 CacheCoherent == \A m \in Mods :
-   /\ (ast[m] # None /\ ~ast[m].torn /\ ast[m].mt = mtime[m]) => ast[m].v = src[m]
+   /\ (ast[m] # None /\ ~ast[m].torn /\ AstHit([a |-> ast], m)) => ast[m].v = src[m]      \* a tree the load would accept was built from the present content
    /\ (sym[m] # None /\ ~sym[m].torn /\ sym[m].key = SymKey(m)) => sym[m].built = Cold(m)
 
 (* C06 *)
